@@ -439,8 +439,11 @@ Proof.
   - now apply sim_process.
   - now apply sim_clear.
   - destruct HR as [H1 H2 H3 H4 H5]. cbn [step_op step5_op]. destruct v.
-    + destruct (_ && _); [|discriminate]. intros [= <-]. eexists; split; [reflexivity|].
-      now constructor.
+    + destruct (o_exc ob =? 3).
+      * destruct (selfl _); [|discriminate]. destruct (release_raise _ _); [|discriminate].
+        intros [= <-]. eexists; split; [reflexivity|]. now constructor.
+      * destruct (_ && _); [|discriminate]. intros [= <-]. eexists; split; [reflexivity|].
+        now constructor.
     + destruct (_ && _); [|discriminate]. intros [= <-]. eexists; split; [reflexivity|].
       now constructor.
   - cbn [step_op step5_op]. intros H. exists ss. split; [reflexivity|].
